@@ -89,21 +89,26 @@ fn search_rule(ctx: &mut Ctx, rng: &mut Rng, dir: &Path) {
     };
     let _ = std::fs::write(cwd.join("top.sv"), &src);
     // expectation
-    let has = |label: &str| present.iter().find(|(l, _)| l == label).map(|(_, p)| p.clone());
-    let expected: Result<String, String> = if absolute {
-        has("inc3").ok_or(written.clone())
-    } else if let Some(p) = has("cwd") {
-        Ok(p)
-    } else {
-        let mut r = Err(written.clone());
-        for i in &order {
-            if let Some(p) = has(&format!("inc{}", i + 1)) {
-                r = Ok(p);
-                break;
+    // (payload, label of the copy that has to be spliced) or the path that has to be reported missing
+    let expect = |present: &Vec<(String, String)>| -> Result<(String, String), String> {
+        let has = |label: &str| present.iter().find(|(l, _)| l == label).map(|(l, p)| (p.clone(), l.clone()));
+        if absolute {
+            has("inc3").ok_or(written.clone())
+        } else if let Some(p) = has("cwd") {
+            Ok(p)
+        } else {
+            let mut r = Err(written.clone());
+            for i in &order {
+                if let Some(p) = has(&format!("inc{}", i + 1)) {
+                    r = Ok(p);
+                    break;
+                }
             }
+            r
         }
-        r
     };
+    let expected_full = expect(&present);
+    let expected: Result<String, String> = expected_full.clone().map(|x| x.0);
     // the cwd rule needs the process to stand in `cwd`
     let old = std::env::current_dir().ok();
     let _ = std::env::set_current_dir(&cwd);
@@ -154,6 +159,60 @@ fn search_rule(ctx: &mut Ctx, rng: &mut Rng, dir: &Path) {
                 let m = format!("file found nowhere: expected Include{{File{{{:?}}}}}, got {:?}", w, e);
                 ctx.violation("wrong-error-shape", "", &m, witness(&m));
             }
+        }
+    }
+    // Second call on the same thread after the file system changed: the copy that was spliced is rewritten in
+    // place (other contents, same length) or removed.  The directive names a file, not what the file held or
+    // where it was found the last time.
+    if let Ok((_, label)) = expected_full {
+        let d = &locs.iter().find(|(l, _)| *l == label).unwrap().1;
+        let mut present2 = present.clone();
+        let removed = rng.chance(1, 3);
+        if removed {
+            let _ = std::fs::remove_file(d.join(name));
+            present2.retain(|(l, _)| *l != label);
+        } else {
+            let np = format!("from_{}", label.to_uppercase());
+            let _ = std::fs::write(d.join(name), format!("{}\n", np));
+            for e in present2.iter_mut() {
+                if e.0 == label {
+                    e.1 = np.clone();
+                }
+            }
+        }
+        let expected2 = expect(&present2).map(|x| x.0);
+        let old = std::env::current_dir().ok();
+        let _ = std::env::set_current_dir(&cwd);
+        let r2 = if rng.chance(1, 2) { pp_file(Path::new("top.sv"), &cfg) } else { pp_str(&src, Path::new("top.sv"), &cfg) };
+        if let Some(o) = old {
+            let _ = std::env::set_current_dir(o);
+        }
+        ctx.count(if removed { "search_rule_second_call_after_removal" } else { "search_rule_second_call_after_rewrite" }, 1);
+        let what = if removed { "removed" } else { "rewritten in place" };
+        let good = match (&r2, &expected2) {
+            (Err(_), _) => {
+                ctx.inconclusive("lib_panic");
+                true
+            }
+            (Ok(Ok((t, _))), Ok(p)) => {
+                let toks = lexer::tokens(t.text());
+                let froms: Vec<&&str> = toks.iter().filter(|x| x.to_lowercase().starts_with("from_")).collect();
+                froms.len() == 1 && **froms[0] == *p.as_str()
+            }
+            (Ok(Err(e)), Err(w)) => {
+                let (dd, inner) = unwrap_include(e);
+                dd == 1 && matches!(inner, Error::File { path, .. } if path == &PathBuf::from(w))
+            }
+            _ => false,
+        };
+        if !good {
+            let got = match &r2 {
+                Ok(Ok((t, _))) => format!("Ok({:?})", clip(t.text(), 200)),
+                Ok(Err(e)) => format!("{:?}", e),
+                Err(_) => String::new(),
+            };
+            let m = format!("second call on the same thread after the spliced copy ({}) was {}: expected {:?}, got {}", label, what, expected2, got);
+            ctx.violation("stale-include", "", &m, witness(&m));
         }
     }
 }
